@@ -838,6 +838,7 @@ func run(c *core.Ctx) {
 	}
 	c.Bound("shapes_per_kind", perKind)
 	c.Bound("scaling_factors", sigmaLadder)
+	c.Bound("far_offsets", fmt.Sprintf("2^k * d for k in %v, d in %v (quarter-step shapes and lattices only: every moved input exactly representable)", farPowers, farOffsets))
 
 	ladderSel, nLadder := ladderSelection(shapes, c.Thorough())
 	c.Bound("ladder_shapes", nLadder)
@@ -858,6 +859,7 @@ func run(c *core.Ctx) {
 		}
 		k.shape(s, L)
 		k.scaling(s, L)
+		k.farAway(s, L)
 		if ladderSel[idx-1] {
 			k.ladder(s)
 		}
@@ -977,6 +979,8 @@ func replay(c *core.Ctx) {
 		k.ladder(*cs.Shape)
 	case "scaling":
 		k.scaling(*cs.Shape, L)
+	case "far":
+		k.farAway(*cs.Shape, L)
 	case "op":
 		k.op(cs.Op, cs.Args, L)
 	case "translate":
